@@ -31,8 +31,9 @@ Definition get_op : dec cop :=
    match t with
    | 0 => w <- get_place ;; j <- get_nat ;; c <- get_chal ;; ret (Present w j c)
    | 1 => w <- get_place ;; j <- get_nat ;; c <- get_chal ;; ret (Clean w j c)
-   | _ => j <- get_nat ;; nm <- get_str ;; v <- get_n ;;
+   | 2 => j <- get_nat ;; nm <- get_str ;; v <- get_n ;;
           ret (Tamper j nm (match v with 0 => None | 1 => Some SCorrupt | _ => Some SEmpty end))
+   | _ => ret Ask
    end).
 Definition get_query : dec query :=
   (t <- get_n ;;
